@@ -84,8 +84,13 @@ def run(ck):
                 if a == b:
                     continue
                 feats = "+".join(sorted(p.features))
-                names = set(re.findall(r"^#define (\w+)", text, re.M))
-                if any(t in names for t in a):
+                # the first differing statement, and the macros defined where it stands
+                ga, rb = gout.split(";"), rout.split(";")
+                where = next((i for i, (x, y) in enumerate(zip(ga, rb)) if macgen.tokenize(x) != macgen.tokenize(y)), -1)
+                gstmt = macgen.tokenize(ga[where]) if where >= 0 else a
+                live = p.live.get(gstmt[0] if gstmt else "", p.macros)
+                unexpanded = [t for i, t in enumerate(gstmt[1:], 1) if t in live and (live[t][0] is None or (i + 1 < len(gstmt) and gstmt[i + 1] == "("))]
+                if unexpanded:
                     # gcc left a macro name unexpanded (it was exempt from expansion when it was produced): interrogate keeps no hide sets
                     ck.violation("known:blue-paint", "a macro name that gcc leaves unexpanded (exempt from re-expansion) is expanded later by interrogate",
                                  {"m.h": text}, "gcc:\n%s\nparse_file -E:\n%s\n" % (gout, rout))
@@ -94,9 +99,6 @@ def run(ck):
                     ck.violation("known:stringify-respacing", "the text produced by # differs from gcc's only in white space next to parentheses/commas (argument came out of another expansion or is __VA_ARGS__)",
                                  {"m.h": text}, "gcc:\n%s\nparse_file -E:\n%s\n" % (gout, rout))
                     continue
-                # first differing statement, for the message
-                ga, rb = gout.split(";"), rout.split(";")
-                where = next((i for i, (x, y) in enumerate(zip(ga, rb)) if macgen.tokenize(x) != macgen.tokenize(y)), -1)
                 ck.violation("expansion-differs:%s:%s" % (mode, feats), "parse_file -E and gcc -E disagree on a %s program (features %s); first differing statement: gcc `%s` / parse_file `%s`"
                              % (mode, feats, ga[where].strip()[:200] if where >= 0 else "?", rb[where].strip()[:200] if where >= 0 else "?"),
                              {"m.h": text}, "gcc:\n%s\nparse_file -E:\n%s\n" % (gout, rout))
